@@ -121,12 +121,15 @@ PLAN["C12"] = dict(
     functions=dict(quick=PARSER_C12, thorough=PARSER_C12), sidecars=["contracts.parser_contracts"],
     assumptions=ENV_ASSUMPTIONS[:1] + [
         "Parser.check_name (regex) and trim_root / pathlib are external; ruamel.yaml rejects duplicate keys inside one file",
-        "NOT under contract: handle_reserve's range parsing (regex), parse_file's import de-duplication (pathlib.resolve), check_duplicate_name across the five shared namespaces for "
-        "constants/aliases/structs/messages (same loop shape as the id handlers, inlined at their call sites only for host/module ids here)"],
+        "NOT under contract: handle_reserve's range parsing (regex), check_duplicate_name across the five shared namespaces for "
+        "constants/aliases/structs/messages (same loop shape as the id handlers, inlined at their call sites only for host/module ids here)",
+        "parse_file's import de-duplication ('every file is read once however it is reached') is decided by a syntactic dataflow contract on the one function (pyvc/importcheck.py: canonical key, "
+        "skip test on that key, append before read), not by SMT; pathlib.resolve() is assumed canonical"],
     explanation="registry invariant (every entry stored under its own name, ids injective) preserved by handle_host_id / handle_module_id; acceptance implies no id or name clash with any registered "
                 "item (the search loops' normal exit), each error is raised only when the corresponding clash exists, range errors exactly outside the permitted ranges (with the core_defs / "
                 "import_coredefs exemptions); validate_msg_id likewise for messages, signals and reserved ids")
-from pyvc import tables as _tables, detcheck as _detcheck, hashcheck as _hashcheck
+from pyvc import tables as _tables, detcheck as _detcheck, hashcheck as _hashcheck, importcheck as _importcheck
+PLAN["C12"]["extra"] = [_importcheck.check]
 PLAN["C04"] = dict(
     functions=[], extra=[_tables.check], level="other",
     level_text="PARTIAL. Only clause T1 of the design is decided: the six hand-written native type tables (parser supported_types, Parser.get_ctype_cls, python type_map and "
@@ -147,7 +150,7 @@ PLAN["C16"] = dict(
     explanation="determinism as a frame condition over every compiler function; currency of core_defs.py as a ground fact; combined-YAML clause not decided")
 
 PLAN["C13"] = dict(
-    functions=[_c for _c in CLIENT_C08 if _c.endswith("Client.send_message")], sidecars=CLIENT_SIDECARS, extra=[_hashcheck.check], level="other",
+    functions=[_c for _c in CLIENT_C08 if _c.endswith("Client.send_message")] + ["pyrtma.client:Client.send_signal"], sidecars=CLIENT_SIDECARS, extra=[_hashcheck.check], level="other",
     level_text="PARTIAL, two deciders. (1) Template contract on Parser.handle_message_def / handle_signal / handle_struct: the stored hash is sha256 of a text whose template - computed from the real AST on "
                "every run by abstract evaluation of the string-building statements - depends on nothing but name, id and the (field name, type text) pairs in document order, contains each of them "
                "verbatim on every branch, and parses uniquely (separator after every element outside the element's lexical class), so equal element lists give equal hashes anywhere and different lists "
